@@ -1057,6 +1057,10 @@ void run_c16_api(Judge& j, uint64_t n) {
                     a.kind = Action::publish; a.qos = (int)rng.below(3); a.topic = "ok/topic"; a.payload = "p";
                     ref::Prop p; int which = (int)rng.below(3);
                     bool ok;
+                    if (rng.chance(1, 12)) {   // Correlation Data is Binary Data: at most 65535 bytes fit its two-byte length
+                        size_t n = rng.pick(std::vector<size_t>{65535, 65536, 70000});
+                        p.id = 0x09; p.s1 = std::string(n, 'c'); ok = n <= 65535;
+                    } else
                     if (which == 0) { p.id = 0x03; p.s1 = s; ok = s.size() <= 65535 && ref::utf8_class(s) == ref::Utf8::clean; }
                     else if (which == 1) { p.id = 0x08; p.s1 = s; ok = ref::topic_name_ok(s); }
                     else { p.id = 0x26; p.s1 = rng.chance(1, 2) ? s : "k"; p.s2 = p.s1 == s ? "v" : s; ok = s.size() <= 65535 && ref::utf8_class(s) == ref::Utf8::clean; }
